@@ -91,7 +91,9 @@ def _solve_z3(text, timeout_ms, mbqi):
     return res, time.time() - t0, reason
 
 
-def _solve_cvc5(text, timeout_ms):
+def _solve_cvc5(text, timeout_ms, rlimit=None):
+    """cvc5 on the VC text; with `rlimit` the budget is cvc5's deterministic resource limit (about 80 000 units per
+    second on this sandbox) and the wall-clock limit only a safety net"""
     t0 = time.time()
     exe = "/usr/bin/cvc5"
     if not os.path.exists(exe):
@@ -101,7 +103,8 @@ def _solve_cvc5(text, timeout_ms):
         path = f.name
     try:
         p = subprocess.run(
-            [exe, "--strings-exp", f"--tlimit={timeout_ms}", path], capture_output=True, text=True,
+            [exe, "--strings-exp", f"--tlimit={timeout_ms}"] + ([f"--rlimit={rlimit}"] if rlimit else []) + [path],
+            capture_output=True, text=True,
             timeout=timeout_ms / 1000 + 5,
         )
         out = p.stdout.strip().splitlines()
